@@ -31,6 +31,11 @@ type Initializer interface {
 func tryInitDefaults(val reflect.Value) reflect.Value {
 	t := val.Type()
 
+	// a nil interface or a nil pointer holds nothing to initialize
+	if (t.Kind() == reflect.Ptr || t.Kind() == reflect.Interface) && val.IsNil() {
+		return val
+	}
+
 	var initializer Initializer
 	if t.Implements(iInitializer) {
 		initializer = val.Interface().(Initializer)
